@@ -32,3 +32,8 @@ package id
 //@   prop C20
 //@   modifies nothing
 //@   ensures tag(result) != 0 && is(result, *fallbackGenerator) && fresh(result.(*fallbackGenerator)) && result.(*fallbackGenerator).counter == 0
+
+// The counter is advanced by one atomic read-modify-write; it is never stored to (a Load followed by a Store
+// would let two concurrent draws obtain the same value).
+//@ type fallbackGenerator
+//@   field counter atomic rmw
